@@ -68,6 +68,8 @@ var g03Payloads = []g03Payload{
 	// payloads whose string arguments use a fixed quote character whatever the context (S = ', D = ")
 	{"stack", ";_exec_xp%cmdshell_SdirS"}, {"stack", ";_waitfor_delay_S0:0:5S"}, {"func", "and_sleep(S5S)"}, {"func", "and_benchmark(5000000,md5(SaS))"}, {"union", "union_select_SaS,2"}, {"taut", "or_SaS=SaS"},
 	{"union", "union_select_DaD,2"}, {"taut", "or_DaD=DaD"}, {"func", "and_load%file(DxD)"}, {"func", "and_extractvalue(1,concat(S~S,version()))"},
+	// a separator between a function name and its parenthesis
+	{"func", "and_sleep_(5)"}, {"func", "or_sleep_(5)"}, {"func", "or_benchmark_(9,md5(1))"}, {"func", "and_if_(1=1,sleep(5),0)"}, {"stack", ";_select_sleep_(5)"}, {"func", "or_pg%sleep_(5)"}, {"func", "and_1=sleep_(5)"}, {"union", "union_select_user_()"},
 	// T-SQL IF after a statement separator
 	{"stack", ";_if_(1=1)_waitfor_delay_Q0:0:5Q"}, {"stack", ";if(1=1)_drop_table_t"}, {"stack", ";_if_exists(select_1)_drop_table_t"}, {"stack", ";_if_1=1_drop_table_t"},
 	// comment truncation (quoted prefixes only)
@@ -119,10 +121,11 @@ var g03TailBlanks = []string{" ", "\t", "\v", "\f", "\r", "\xa0", "\x00"}
 
 // render options beyond separators and case
 type g03Opt struct {
-	value      int // -1: the prefix as written; else index into g03Values (quoted "x"/"admin" prefixes only)
-	tailBlank  int // index into g03TailBlanks
-	closers    int // > 0: this many ')' instead of the member's "))" (close* of the grammar)
-	stretchAt  int // gap whose separator is repeated up to stretchLen bytes (-1: none)
+	value      int  // -1: the prefix as written; else index into g03Values (quoted "x"/"admin" prefixes only)
+	tailBlank  int  // index into g03TailBlanks
+	hugeValue  bool // the quoted value before the breakout quote is stretchLen bytes long
+	closers    int  // > 0: this many ')' instead of the member's "))" (close* of the grammar)
+	stretchAt  int  // gap whose separator is repeated up to stretchLen bytes (-1: none)
 	stretchLen int
 }
 
@@ -195,6 +198,9 @@ func g03BuildOpt(m g03Member, sepAt0 func(i int) string, mask uint64, o g03Opt) 
 	var b strings.Builder
 	if o.value >= 0 && g03ValueApplies(pre) {
 		v := g03Values[o.value%len(g03Values)]
+		if o.hugeValue && o.stretchLen > 0 {
+			v = strings.Repeat("a", o.stretchLen)
+		}
 		other := "\""
 		if pre.quote == '"' {
 			other = "'"
@@ -348,6 +354,17 @@ func genC03(w *core.Worker, u core.Unit, emit func(s string, meta string)) {
 				o.stretchAt = r.Intn(4)
 				o.stretchLen = g03StretchLens[r.Intn(len(g03StretchLens))]
 			}
+			if i%40000 == 39999 {
+				// request-body sized: one separator (or the value before the quote)
+				// grown beyond 12.5 MiB
+				o.stretchAt = int(i/40000) % 2
+				o.stretchLen = []int{13107201, 16<<20 + 1}[int(i/80000)%2]
+				if int(i/40000)%3 == 2 {
+					o.hugeValue = true
+					o.value = 0
+					o.stretchAt = -1
+				}
+			}
 			s = g03BuildOpt(m, func(int) string { return g03Seps[r.Intn(len(g03Seps))] }, r.U64(), o)
 		}
 		pay := g03Payloads[m.pay]
@@ -438,7 +455,16 @@ func c03() *core.Check {
 		},
 		One: func(w *core.Worker, c core.Case) {
 			w.Eval(1)
+			// a harmless value is scanned in between (16 workers do this at once), and
+			// the attack is asked twice: the answer must not depend on what else the
+			// process is being asked
+			n, _ := w.Local["c03n"].(int)
+			w.Local["c03n"] = n + 1
+			li.IsSQLi(c03Benign[n%len(c03Benign)])
 			b, f := li.IsSQLi(c.In)
+			if b && len(c.In) <= 4096 {
+				b, f = li.IsSQLi(c.In)
+			}
 			if !b {
 				w.Violate("attack-not-detected", "IsSQLi returned false for a member of the attack grammar ("+c.S+")\n"+explainCascadeOf(c.In))
 				return
@@ -454,6 +480,8 @@ func c03() *core.Check {
 		Assumptions: []string{"G_sqli is finite-branching and fixed; it was calibrated once on the repaired tree, never at check time", "a deleted fingerprint that no grammar member maps to is C20's business"},
 	}
 }
+
+var c03Benign = []string{"hello world", "42", "john.smith@example.com", "2021-01-01", "a perfectly ordinary sentence with nothing in it", "page=3&sort=name", "", "O'Neil"}
 
 func explainCascadeOf(s string) string {
 	b, f := li.IsSQLi(s)
